@@ -211,6 +211,29 @@ def rule_no_format_cache(ctx):
            '_at computes the format of the current fields on every call and keeps nothing on the object', a.node, ci.module)
 
 
+def rule_derived(ctx):
+    ctx.rule('C19.ctor', 'derived envelopes: duration = x scales every time by x / total duration; range/exprange/curverange map the levels of '
+                         'a copy from [min, max] of the levels to [lo, hi] with the mapping of their name and leave the receiver untouched')
+    ci = env(ctx)
+    mod = ci.module
+    d = ci.setters['duration']
+    src = full(d.node)
+    v = d.params[1]
+    ok = U.before(src, 'res = utl.list_binop(operator.mul, self.times, 1 / self.total_duration())', f'self.times = utl.list_binop(operator.mul, res, {v})')
+    ctx.ob('C19.ctor', f'{d.fq}', ok, 'the duration setter rescales the times proportionally (times / total * value)', d.node, mod)
+    for name, kernel in (('range', 'bi.linlin'), ('exprange', 'bi.linexp'), ('curverange', 'bi.lincurve')):
+        f = ci.methods[name]
+        src = full(f.node)
+        extra = ', curve' if name == 'curverange' else ''
+        ok = U.before(src, 'obj = copy.copy(self)', 'min = utl.list_min(obj.levels)', 'max = utl.list_max(obj.levels)',
+                      f'obj.levels = utl.list_narop({kernel}, obj.levels, min, max, lo, hi{extra})', 'return obj') and \
+            not any(isinstance(x, ast.Assign) and any(U.is_self_attr(t) for t in x.targets) for x in walk_local(f.node))
+        ctx.ob('C19.ctor', f'{f.fq}', ok, f'{name} maps the levels of a copy with {kernel} from their own [min, max] to [lo, hi]', f.node, mod)
+    rt = ci.methods['release_time']
+    ok = 'if self.release_node is None: return 0.0 else: return utl.list_sum(self.times[self.release_node:])' in full(rt.node)
+    ctx.ob('C19.ctor', f'{rt.fq}', ok, 'release time is the sum of the times from the release node on', rt.node, mod)
+
+
 def rule_at(ctx):
     ctx.rule('C19.at', '_env_at reads stride-4 records: level at i, duration at i+1, shape at i+2, curvature at i+3, starting at 4; '
                        'holds the last level afterwards')
@@ -350,6 +373,7 @@ def rule_ctor(ctx):
 
 def run(ctx):
     rule_fresh(ctx)
+    rule_derived(ctx)
     rule_no_format_cache(ctx)
     rule_shapes(ctx)
     rule_fmt(ctx)
@@ -358,6 +382,10 @@ def run(ctx):
 
 
 MUTANTS = [
+    dict(rule='C19.ctor', name='range maps from [0, max] instead of [min, max]', file='sc3/synth/envelope.py',
+         old="        obj.levels = utl.list_narop(bi.linlin, obj.levels, min, max, lo, hi)", new="        obj.levels = utl.list_narop(bi.linlin, obj.levels, 0, max, lo, hi)"),
+    dict(rule='C19.ctor', name='duration setter divides by the plain sum of one channel', file='sc3/synth/envelope.py',
+         old="            operator.mul, self.times, 1 / self.total_duration())", new="            operator.mul, self.times, 1 / len(self.times))"),
     dict(rule='C19.at', name='_at caches the format on the object (seed C19-d)', file='sc3/synth/envelope.py',
          old="        data = self._envgen_format()", new="        if getattr(self, '_data', None) is None:\n            self._data = self._envgen_format()\n        data = self._data"),
     dict(rule='C19.fmt', name='(fix reverted) _envgen_format memoizes its first result', file='sc3/synth/envelope.py',
